@@ -1,4 +1,5 @@
 import SfxModel.ArithSpec
+import SfxModel.Rem
 /-
   DriverArith.lean — request kinds of the arithmetic family: model answer and documented answer.
 -/
@@ -56,6 +57,50 @@ def model (L : Layout) (op : String) (a : List Int) : Option (Outcome Val) :=
   | "overflowing_abs", [x] => if L.signed then some (oPair (L.overflowingAbs x)) else none
   | "overflowing_mul_int", [x, k] => some (oPair (L.overflowingMulInt x k))
   | "overflowing_div_int", [x, k] => some (oPair (L.overflowingDivInt x k))
+  -- rounding (C06)
+  | "int", [x] => some (oInt (pure (L.intPart x)))
+  | "frac", [x] => some (oInt (pure (L.fracPart x)))
+  | "round_to_zero", [x] => some (oInt (L.roundToZero x))
+  | "ceil", [x] => some (oInt (L.plainR .ceil x))
+  | "floor", [x] => some (oInt (L.plainR .floor x))
+  | "round", [x] => some (oInt (L.plainR .round x))
+  | "round_ties_to_even", [x] => some (oInt (L.plainR .roundEven x))
+  | "checked_ceil", [x] => some (oOpt (L.checkedR .ceil x))
+  | "checked_floor", [x] => some (oOpt (L.checkedR .floor x))
+  | "checked_round", [x] => some (oOpt (L.checkedR .round x))
+  | "checked_round_ties_to_even", [x] => some (oOpt (L.checkedR .roundEven x))
+  | "saturating_ceil", [x] => some (oInt (L.saturatingR .ceil x))
+  | "saturating_floor", [x] => some (oInt (L.saturatingR .floor x))
+  | "saturating_round", [x] => some (oInt (L.saturatingR .round x))
+  | "saturating_round_ties_to_even", [x] => some (oInt (L.saturatingR .roundEven x))
+  | "wrapping_ceil", [x] => some (oInt (L.wrappingR .ceil x))
+  | "wrapping_floor", [x] => some (oInt (L.wrappingR .floor x))
+  | "wrapping_round", [x] => some (oInt (L.wrappingR .round x))
+  | "wrapping_round_ties_to_even", [x] => some (oInt (L.wrappingR .roundEven x))
+  | "overflowing_ceil", [x] => some (oPair (pure (L.overflowingR .ceil x)))
+  | "overflowing_floor", [x] => some (oPair (pure (L.overflowingR .floor x)))
+  | "overflowing_round", [x] => some (oPair (pure (L.overflowingR .round x)))
+  | "overflowing_round_ties_to_even", [x] => some (oPair (pure (L.overflowingR .roundEven x)))
+  -- remainders / Euclidean division (C07)
+  | "rem", [x, y] => some (oInt (L.remOp x y))
+  | "checked_rem", [x, y] => some (oOpt (L.checkedRem x y))
+  | "rem_euclid", [x, y] => some (oInt (L.remEuclid x y))
+  | "checked_rem_euclid", [x, y] => some (oOpt (L.checkedRemEuclid x y))
+  | "div_euclid", [x, y] => some (oInt (L.divEuclid x y))
+  | "checked_div_euclid", [x, y] => some (oOpt (L.checkedDivEuclid x y))
+  | "saturating_div_euclid", [x, y] => some (oInt (L.saturatingDivEuclid x y))
+  | "wrapping_div_euclid", [x, y] => some (oInt (L.wrappingDivEuclid x y))
+  | "overflowing_div_euclid", [x, y] => some (oPair (L.overflowingDivEuclid x y))
+  | "rem_int", [x, k] => some (oInt (L.remIntOp x k))
+  | "checked_rem_int", [x, k] => some (oOpt (L.checkedRemInt x k))
+  | "rem_euclid_int", [x, k] => some (oInt (L.remEuclidInt x k))
+  | "checked_rem_euclid_int", [x, k] => some (oOpt (L.checkedRemEuclidInt x k))
+  | "wrapping_rem_euclid_int", [x, k] => some (oInt (L.wrappingRemEuclidInt x k))
+  | "overflowing_rem_euclid_int", [x, k] => some (oPair (L.overflowingRemEuclidInt x k))
+  | "div_euclid_int", [x, k] => some (oInt (L.divEuclidInt x k))
+  | "checked_div_euclid_int", [x, k] => some (oOpt (L.checkedDivEuclidInt x k))
+  | "wrapping_div_euclid_int", [x, k] => some (oInt (L.wrappingDivEuclidInt x k))
+  | "overflowing_div_euclid_int", [x, k] => some (oPair (L.overflowingDivEuclidInt x k))
   | "h_mul_overflow", [x, y] => some (oPair (mulOverflow L.signed L.n L.f x y))
   | "h_div_overflow", [x, y] => some (oPair (divOverflow L.signed L.n L.f x y))
   | "h_div_rem_from", [d, n1, n0] =>
@@ -74,6 +119,19 @@ def spec (L : Layout) (op : String) (a : List Int) : Option (Outcome Val) :=
   | "abs", [x] => form.spec L (if x < 0 then -x else x)
   | "mul_int", [x, k] => form.spec L (x * k)
   | "div_int", [x, k] => if k = 0 then form.specDivZero else form.spec L (Int.tdiv x k)
+  | "int", [x] => if form = .plain then some (.ok (.int (if L.intBits = 0 then 0 else Layout.floorE L.f x)) false) else none
+  | "frac", [x] => if form = .plain then some (.ok (.int (x - (if L.intBits = 0 then 0 else Layout.floorE L.f x))) false) else none
+  | "round_to_zero", [x] => form.spec L (Layout.truncE L.f x)
+  | "ceil", [x] => form.spec L (Layout.ceilE L.f x)
+  | "floor", [x] => form.spec L (Layout.floorE L.f x)
+  | "round", [x] => form.spec L (Layout.roundE L.f x)
+  | "round_ties_to_even", [x] => form.spec L (Layout.roundEvenE L.f x)
+  | "rem", [x, y] => if y = 0 then form.specDivZero else form.spec L (Int.tmod x y)
+  | "rem_euclid", [x, y] => if y = 0 then form.specDivZero else form.spec L (x % y)
+  | "div_euclid", [x, y] => if y = 0 then form.specDivZero else form.spec L ((x / y) * 2 ^ L.f)
+  | "rem_int", [x, k] => if k = 0 then form.specDivZero else form.spec L (Int.tmod x (k * 2 ^ L.f))
+  | "rem_euclid_int", [x, k] => if k = 0 then form.specDivZero else form.spec L (x % (k * 2 ^ L.f))
+  | "div_euclid_int", [x, k] => if k = 0 then form.specDivZero else form.spec L ((x / (k * 2 ^ L.f)) * 2 ^ L.f)
   | "h_mul_overflow", [x, y] => Form.overflowing.spec L (mulSpec L.f x y)
   | "h_div_overflow", [x, y] => if y = 0 then some .panic else Form.overflowing.spec L (divSpec L.f x y)
   | "h_div_rem_from", [d, n1, n0] =>
